@@ -4,12 +4,20 @@
    recognises it (validate_structure and read_to_memory both succeed). *)
 From Geff Require Export Base Dtype Vlen Tree Validate Write Read.
 Open Scope list_scope.
+(* IEntryCrash: one call of any writing entry point (Entry.ecall: converters, write_dicts, backend writers, ...) *)
+From Geff Require Export GraphVal Ctc TrackMate Entry.
 
 (* IApiCrash: the same through geff.write (graph-library writer): api_write = the wrapper's guard, then write_arrays(overwrite=False)
    on the arrays the backend built (captured by the harness) *)
 Inductive input :=
   ICrash (k : skind) (pre : option znode) (g : wgraph) (md : smeta) (validate overwrite : bool)
-| IApiCrash (k : skind) (pre : option znode) (g : wgraph) (md : smeta) (validate overwrite : bool).
+| IApiCrash (k : skind) (pre : option znode) (g : wgraph) (md : smeta) (validate overwrite : bool)
+| IEntryCrash (pre : option znode) (c : ecall)
+(* two views of one call: the TrackMate converter hands its property columns to the writer in the iteration order of a Python set
+   (NxBackend.write: list({k for ...})), which the converter model `c` does not have.  `c` is checked on result, final tree and
+   survivors; the trace obligation is checked on `c'` = geff.write of the arrays in the order in which they were actually handed
+   over (EApi on the captured arguments; e_run_two_guards: both are guarded_write) *)
+| IEntryCrash2 (pre : option znode) (c c' : ecall).
 Inductive obs :=
   OCrash (r : res unit) (final : option znode) (survivors : list (option (option znode) * bool)).
 
@@ -23,17 +31,30 @@ Definition run_input (i : input) : st * res unit :=
   match i with
   | ICrash k pre g md v ov => write_arrays k g md v ov (init pre)
   | IApiCrash k pre g md v ov => api_write k g md v ov (init pre)
+  | IEntryCrash pre c | IEntryCrash2 pre c _ => e_run c (init pre)
   end.
-Definition pre_of (i : input) : option znode := match i with ICrash _ pre _ _ _ _ | IApiCrash _ pre _ _ _ _ => pre end.
-Definition diag (c : input * obs) : list bool :=
+Definition pre_of (i : input) : option znode :=
+  match i with ICrash _ pre _ _ _ _ | IApiCrash _ pre _ _ _ _ => pre | IEntryCrash pre _ | IEntryCrash2 pre _ _ => pre end.
+(* entry-point cases compare trees with the opaque metadata tokens blanked (Entry.zero_tok: the converters' models have their own
+   token convention); a directory that exists without being a zarr group is dumped by the harness as a group without attributes *)
+Definition teq (i : input) (a b : option znode) : bool :=
+  match i with IEntryCrash _ _ | IEntryCrash2 _ _ _ => otree_eqb (zero_tok a) (zero_tok b) | _ => otree_eqb a b end.
+Definition same_state_i (i : input) (d : option (option znode)) (st : option znode) : bool :=
+  match d with Some t => teq i t st | None => false end.
+Definition diag1 (c : input * obs) : list bool :=
   match c with
   | (i, OCrash r final survivors) =>
       let pre := pre_of i in
       let (s', r') := run_input i in
       [ res_eqb unit_eqb r' r;
-        otree_eqb (s_root s') final;
-        forallb (fun dr => negb (snd dr) || same_state (fst dr) (s_root s') || same_state (fst dr) pre) survivors;
-        forallb (fun st => existsb (fun dr => same_state (fst dr) st) survivors || otree_eqb st final) (s_trace s') ]
+        teq i (s_root s') final;
+        forallb (fun dr => negb (snd dr) || same_state_i i (fst dr) (s_root s') || same_state_i i (fst dr) pre) survivors;
+        forallb (fun st => existsb (fun dr => same_state_i i (fst dr) st) survivors || teq i st final) (s_trace s') ]
+  end.
+Definition diag (c : input * obs) : list bool :=
+  match c with
+  | (IEntryCrash2 pre a b, o) => firstn 3 (diag1 (IEntryCrash pre a, o)) ++ diag1 (IEntryCrash pre b, o)
+  | _ => diag1 c
   end.
 Definition check (c : input * obs) : bool := forallb (fun b => b) (diag c).
 Definition model (i : input) : list (option znode) := s_trace (fst (run_input i)).
